@@ -1,5 +1,5 @@
 /-
-  C09 helper lemmas for the mechanism model GenCtx (suspend / resume offset rebasing).
+  C09 helper lemmas for the mechanism model GenCtx (suspend / resume offset rebasing, handleThrow).
 -/
 import GojaModel.C09.Mech
 
@@ -7,12 +7,12 @@ namespace GojaModel.C09.Mech
 
 /-- Frames pushed while the generator runs record lengths at or above the generator's bases
 (`pushTryFrame` records the current lengths, which only grow above `storeLengths`' snapshot). -/
-def FramesAbove (fs : List TryFrame) (I R : Nat) : Prop := ∀ tf ∈ fs, I ≤ tf.iterLen ∧ R ≤ tf.refLen
+def FramesAbove (fs : List TryFrame) (I R S : Nat) : Prop := ∀ tf ∈ fs, I ≤ tf.iterLen ∧ R ≤ tf.refLen ∧ S ≤ tf.sp
 
 theorem suspend_ectx (vm : VM) (T I R : Nat) :
     (suspend vm T I R).1 =
       { ctx := vm.cur, stack := vm.stack.drop (vm.cur.sb - 1).toNat,
-        tryStack := (vm.tryStack.drop T).map (fun tf => tf.toRel I R (vm.cur.sb - 1)),
+        tryStack := (vm.tryStack.drop T).map (fun tf => tf.toRel I R (vm.cur.sb - 1).toNat),
         iterStack := vm.iterStack.drop I, refStack := vm.refStack.drop R } := by
   simp only [suspend]
   split <;> split <;> split <;> simp_all [List.drop_eq_nil_of_le, Nat.le_of_not_lt]
@@ -24,31 +24,23 @@ theorem suspend_vm (vm : VM) (T I R : Nat) :
   split <;> split <;> split <;> simp_all [List.take_of_length_le, Nat.le_of_not_lt]
 
 /-- The frame a suspended-then-resumed try frame becomes (the statement of `resume_suspend_shift`). -/
-def shifted (tf : TryFrame) (I R : Nat) (spBase : Int) (vm2 : VM) : TryFrame :=
+def shifted (tf : TryFrame) (I R S : Nat) (vm2 : VM) : TryFrame :=
   { tf with callStackLen := vm2.callStack.length,
             iterLen := tf.iterLen - I + vm2.iterStack.length,
             refLen := tf.refLen - R + vm2.refStack.length,
-            sp := tf.sp - spBase + vm2.stack.length }
+            sp := tf.sp - S + vm2.stack.length }
 
-theorem toAbs_toRel (tf : TryFrame) (I R : Nat) (spBase : Int) (vm2 : VM) :
-    (tf.toRel I R spBase).toAbs vm2.callStack.length vm2.iterStack.length vm2.refStack.length vm2.stack.length
-      = shifted tf I R spBase vm2 := by
+theorem toAbs_toRel (tf : TryFrame) (I R S : Nat) (vm2 : VM) :
+    (tf.toRel I R S).toAbs vm2.callStack.length vm2.iterStack.length vm2.refStack.length vm2.stack.length
+      = shifted tf I R S vm2 := by
   simp [TryFrame.toRel, TryFrame.toAbs, shifted]
 
-theorem relView_shifted (tf : TryFrame) (I R : Nat) (spBase : Int) (vm2 : VM) (hI : I ≤ tf.iterLen) (hR : R ≤ tf.refLen) :
-    relView (shifted tf I R spBase vm2) vm2.iterStack.length vm2.refStack.length vm2.stack.length = relView tf I R spBase := by
+theorem relView_shifted (tf : TryFrame) (I R S : Nat) (vm2 : VM) (hI : I ≤ tf.iterLen) (hR : R ≤ tf.refLen) (hS : S ≤ tf.sp) :
+    relView (shifted tf I R S vm2) vm2.iterStack.length vm2.refStack.length vm2.stack.length = relView tf I R S := by
   simp only [relView, shifted, TryFrame.toRel]
   congr 1 <;> omega
 
-theorem getLast?_append_singleton {α : Type} (l : List α) (a : α) : (l ++ [a]).getLast? = some a := by
-  simp
-
-theorem dropLast_append_singleton {α : Type} (l : List α) (a : α) : (l ++ [a]).dropLast = l := by
-  simp
-
-end GojaModel.C09.Mech
-
-namespace GojaModel.C09.Mech
+/-! ## handleThrow: one iteration -/
 
 /-- What `handleThrow` decides at a live frame depends only on its handler positions (vm.go:820-838). -/
 def outcomeOf (tf : TryFrame) : Outcome :=
@@ -61,16 +53,44 @@ def TryFrame.dead (tf : TryFrame) : Prop := tf.catchPos = -1 ∧ tf.finallyPos =
 
 instance (tf : TryFrame) : Decidable tf.dead := by unfold TryFrame.dead; exact inferInstance
 
-theorem handleThrow_outcome_top (ex : Nat) (vm : VM) (fs : List TryFrame) (tf : TryFrame)
-    (h : vm.tryStack = fs ++ [tf]) (hlive : ¬ tf.dead) : (handleThrow ex vm).1 = outcomeOf tf := by
+/-- The body of one loop iteration of `handleThrow` at a live top frame `tf` (vm.go:809-838), as a function. -/
+def liveStep (ex : Nat) (vm : VM) (tf : TryFrame) : Outcome × List Nat × VM :=
+  let vm1 : VM :=
+    if tf.callStackLen < vm.callStack.length then
+      let c := vm.callStack.getD tf.callStackLen default
+      { vm with cur := { c with stash := vm.cur.stash }, callStack := vm.callStack.take tf.callStackLen }
+    else vm
+  let vm2 : VM := { vm1 with stack := vm1.stack.take tf.sp, cur := { vm1.cur with stash := tf.stash } }
+  let (cl, vm3) := restoreStacks vm2 tf.iterLen tf.refLen
+  if tf.catchPos = tryPanicMarker then (.uncaught, cl, vm3)
+  else if tf.catchPos ≥ 0 then
+    (.caught tf.catchPos, cl,
+     { vm3 with stack := vm3.stack ++ [ex], cur := { vm3.cur with pc := tf.catchPos },
+                tryStack := vm3.tryStack.dropLast ++ [{ tf with catchPos := -1 }] })
+  else if tf.finallyPos ≥ 0 then
+    (.toFinally tf.finallyPos, cl,
+     { vm3 with cur := { vm3.cur with pc := tf.finallyPos },
+                tryStack := vm3.tryStack.dropLast ++ [{ tf with exc := some ex, finallyPos := -1, finallyRet := -1 }] })
+  else (.stuck, cl, vm3)
+
+theorem handleThrow_live_top (ex : Nat) (vm : VM) (fs : List TryFrame) (tf : TryFrame)
+    (h : vm.tryStack = fs ++ [tf]) (hlive : ¬ tf.dead) : handleThrow ex vm = liveStep ex vm tf := by
   unfold handleThrow
   rw [h]
   simp only [List.length_append, List.length_cons, List.length_nil, Nat.zero_add]
   unfold handleThrowLoop
   simp only [h, List.getLast?_append, List.getLast?_singleton, Option.some_or]
   unfold TryFrame.dead at hlive
-  simp only [hlive, if_false, restoreStacks, outcomeOf]
+  simp only [hlive, if_false, liveStep, restoreStacks, List.nil_append]
+  split <;> (try split) <;> (try split) <;> (try split) <;> simp_all
+
+theorem liveStep_outcome (ex : Nat) (vm : VM) (tf : TryFrame) : (liveStep ex vm tf).1 = outcomeOf tf := by
+  simp only [liveStep, restoreStacks, outcomeOf]
   split <;> (try split) <;> (try split) <;> simp_all
+
+theorem handleThrow_outcome_top (ex : Nat) (vm : VM) (fs : List TryFrame) (tf : TryFrame)
+    (h : vm.tryStack = fs ++ [tf]) (hlive : ¬ tf.dead) : (handleThrow ex vm).1 = outcomeOf tf := by
+  rw [handleThrow_live_top ex vm fs tf h hlive, liveStep_outcome]
 
 /-- A dead frame on top is popped and the search continues below it (vm.go:804-807). -/
 theorem handleThrow_dead_pops (ex : Nat) (vm : VM) (fs : List TryFrame) (tf : TryFrame)
@@ -83,22 +103,16 @@ theorem handleThrow_dead_pops (ex : Nat) (vm : VM) (fs : List TryFrame) (tf : Tr
   unfold TryFrame.dead at hdead
   simp [h, hdead]
 
-theorem shifted_handlers (tf : TryFrame) (I R : Nat) (spBase : Int) (vm2 : VM) :
-    (shifted tf I R spBase vm2).catchPos = tf.catchPos ∧ (shifted tf I R spBase vm2).finallyPos = tf.finallyPos ∧
-    (shifted tf I R spBase vm2).finallyRet = tf.finallyRet ∧ (shifted tf I R spBase vm2).stash = tf.stash ∧
-    (shifted tf I R spBase vm2).exc = tf.exc := by
+theorem shifted_handlers (tf : TryFrame) (I R S : Nat) (vm2 : VM) :
+    (shifted tf I R S vm2).catchPos = tf.catchPos ∧ (shifted tf I R S vm2).finallyPos = tf.finallyPos ∧
+    (shifted tf I R S vm2).finallyRet = tf.finallyRet ∧ (shifted tf I R S vm2).stash = tf.stash ∧
+    (shifted tf I R S vm2).exc = tf.exc := by
   simp [shifted]
-
-end GojaModel.C09.Mech
-
-namespace GojaModel.C09.Mech
 
 theorem outcomeOf_congr {a b : TryFrame} (hc : b.catchPos = a.catchPos) (hf : b.finallyPos = a.finallyPos) :
     outcomeOf b = outcomeOf a := by simp [outcomeOf, hc, hf]
 
-/-- The handler `handleThrow` selects inside a segment of frames depends only on the frames' handler positions:
-two vms whose top segments agree up to a handler-preserving frame map (such as the suspend/resume shift) select
-the same handler, whatever lies below the segment, provided some frame of the segment is live. -/
+/-- The handler `handleThrow` selects inside a segment of frames depends only on the frames' handler positions. -/
 theorem handleThrow_outcome_segment (ex : Nat) (f : TryFrame → TryFrame)
     (hf : ∀ tf, (f tf).catchPos = tf.catchPos ∧ (f tf).finallyPos = tf.finallyPos)
     (rs : List TryFrame) :
@@ -124,5 +138,106 @@ theorem handleThrow_outcome_segment (ex : Nat) (f : TryFrame → TryFrame)
         unfold TryFrame.dead at *; rw [(hf tf).1, (hf tf).2]; exact hd
       rw [handleThrow_outcome_top ex vm1 _ tf h1' hd, handleThrow_outcome_top ex vm2 _ (f tf) h2' hd2]
       exact (outcomeOf_congr (hf tf).1 (hf tf).2).symm
+
+/-! ## Re-basing a generator-owned vm part onto a caller's vm
+
+`g` describes the generator-owned part of a vm with all offsets relative to its own bottom (no caller below);
+`rebase lo g` puts it on top of the caller's vm `lo`. `suspend`/`resume` move a generator part from one caller to
+another; every mechanism step that only touches the generator-owned part commutes with `rebase`. -/
+
+def shiftCtx (d : Nat) (c : Ctx) : Ctx := { c with sb := c.sb + d }
+
+def shiftFrame (lo : VM) (tf : TryFrame) : TryFrame :=
+  { tf with callStackLen := tf.callStackLen + lo.callStack.length, iterLen := tf.iterLen + lo.iterStack.length,
+            refLen := tf.refLen + lo.refStack.length, sp := tf.sp + lo.stack.length }
+
+def rebase (lo g : VM) : VM :=
+  { cur := shiftCtx lo.stack.length g.cur
+    stack := lo.stack ++ g.stack
+    callStack := lo.callStack ++ g.callStack.map (shiftCtx lo.stack.length)
+    iterStack := lo.iterStack ++ g.iterStack
+    refStack := lo.refStack ++ g.refStack
+    tryStack := lo.tryStack ++ g.tryStack.map (shiftFrame lo) }
+
+def rebaseRes (lo : VM) (r : Outcome × List Nat × VM) : Outcome × List Nat × VM := (r.1, r.2.1, rebase lo r.2.2)
+
+theorem shiftFrame_dead (lo : VM) (tf : TryFrame) : (shiftFrame lo tf).dead ↔ tf.dead := by
+  simp [TryFrame.dead, shiftFrame]
+
+theorem take_add_length {α : Type} (l : List α) (n : Nat) : List.take (n + l.length) l = l :=
+  List.take_of_length_le (by omega)
+
+theorem drop_add_length {α : Type} (l : List α) (n : Nat) : List.drop (n + l.length) l = [] :=
+  List.drop_of_length_le (by omega)
+
+theorem getD_append_map_shift (a b : List Ctx) (d i : Nat) (h : i < b.length) :
+    (a ++ b.map (shiftCtx d)).getD (i + a.length) default = shiftCtx d (b.getD i default) := by
+  simp [List.getD_eq_getElem?_getD, List.getElem?_append_right, h]
+
+/-- One live iteration of `handleThrow` commutes with re-basing (state equality, incl. extra call frames). -/
+theorem liveStep_rebase (ex : Nat) (lo g : VM) (tf : TryFrame) (fs : List TryFrame) (hg : g.tryStack = fs ++ [tf]) :
+    liveStep ex (rebase lo g) (shiftFrame lo tf) = rebaseRes lo (liveStep ex g tf) := by
+  simp only [liveStep, rebaseRes, restoreStacks, shiftFrame, rebase, List.length_append, List.length_map]
+  have hlt : (tf.callStackLen + lo.callStack.length < lo.callStack.length + g.callStack.length) ↔
+      (tf.callStackLen < g.callStack.length) := by omega
+  by_cases hc : tf.callStackLen < g.callStack.length
+  · have hget := getD_append_map_shift lo.callStack g.callStack lo.stack.length tf.callStackLen hc
+    simp only [hlt, hc, if_true, hget, hg]
+    split <;> (try split) <;> (try split) <;>
+      simp_all [shiftCtx, List.take_append, List.drop_append, take_add_length, drop_add_length,
+                List.map_append, List.dropLast_concat, ← List.append_assoc, shiftFrame, List.map_take]
+  · simp only [hlt, hc, if_false, hg]
+    split <;> (try split) <;> (try split) <;>
+      simp_all [shiftCtx, List.take_append, List.drop_append, take_add_length, drop_add_length,
+                List.map_append, List.dropLast_concat, ← List.append_assoc, shiftFrame]
+
+/-- `handleThrow` commutes with re-basing — equality of outcome, closed iterators AND resulting vm state — through any
+number of dead frames, provided some frame of the generator-owned part is live (the exception is handled there). -/
+theorem handleThrow_rebase (ex : Nat) (lo : VM) (rs : List TryFrame) :
+    ∀ (g : VM) (fs : List TryFrame), g.tryStack = fs ++ rs.reverse → (∃ tf ∈ rs, ¬ tf.dead) →
+      handleThrow ex (rebase lo g) = rebaseRes lo (handleThrow ex g) := by
+  induction rs with
+  | nil => intro _ _ _ h; obtain ⟨_, hm, _⟩ := h; cases hm
+  | cons tf rs ih =>
+    intro g fs hg hlive
+    have hg' : g.tryStack = (fs ++ rs.reverse) ++ [tf] := by simp [hg]
+    have hr' : (rebase lo g).tryStack = (lo.tryStack ++ (fs ++ rs.reverse).map (shiftFrame lo)) ++ [shiftFrame lo tf] := by
+      simp [rebase, hg]
+    by_cases hd : tf.dead
+    · have hd2 : (shiftFrame lo tf).dead := (shiftFrame_dead lo tf).2 hd
+      rw [handleThrow_dead_pops ex g _ tf hg' hd, handleThrow_dead_pops ex (rebase lo g) _ _ hr' hd2]
+      have hreb : { rebase lo g with tryStack := lo.tryStack ++ (fs ++ rs.reverse).map (shiftFrame lo) }
+          = rebase lo { g with tryStack := fs ++ rs.reverse } := by simp [rebase]
+      rw [hreb]
+      apply ih _ fs rfl
+      obtain ⟨t, hm, hl⟩ := hlive
+      cases hm with
+      | head => exact absurd hd hl
+      | tail _ hm' => exact ⟨t, hm', hl⟩
+    · have hd2 : ¬ (shiftFrame lo tf).dead := fun h => hd ((shiftFrame_dead lo tf).1 h)
+      rw [handleThrow_live_top ex g _ tf hg' hd, handleThrow_live_top ex (rebase lo g) _ _ hr' hd2]
+      exact liveStep_rebase ex lo g tf _ hg'
+
+/-! ### suspend / resume as a change of base -/
+
+/-- A generator-owned part as it stands at a yield: running in the generator's own frame (no call frames above it,
+relative `sb` = 1: slot 0 of its stack segment is the callee) and every try frame pushed at that call depth. -/
+def AtYield (g : VM) : Prop := g.callStack = [] ∧ g.cur.sb = 1 ∧ ∀ tf ∈ g.tryStack, tf.callStackLen = 0
+
+theorem resume_suspend_rebase (lo vm2 g : VM) (hg : AtYield g) :
+    resume vm2 (suspend (rebase lo g) lo.tryStack.length lo.iterStack.length lo.refStack.length).1 = rebase vm2 g := by
+  obtain ⟨hc, hsb, hf⟩ := hg
+  simp only [suspend_ectx, resume, rebase, shiftCtx, hsb, hc, List.map_nil, List.append_nil, List.drop_left,
+    List.map_map]
+  have e1 : ((1 : Int) + ↑lo.stack.length - 1).toNat = lo.stack.length := by omega
+  rw [e1, List.drop_left]
+  congr 1
+  · cases hcur : g.cur; simp_all; omega
+  · congr 1
+    apply List.map_congr_left
+    intro tf htf
+    have := hf tf htf
+    cases tf
+    simp_all [TryFrame.toRel, TryFrame.toAbs, shiftFrame]
 
 end GojaModel.C09.Mech
